@@ -17,15 +17,15 @@ TRUSTED = []
 
 def gen_ops(tier, rng):
     ops = []
-    Bs = [1, 2, 7, 64, 1000, 4096] if tier == "quick" else [1, 2, 3, 7, 64, 100, 1000, 4096, 65536, 1 << 20]
+    Bs = [1, 2, 7, 64, 1000, 4096] if tier == "quick" else [1, 2, 3, 7, 64, 100, 1000, 4096, 65536]
     shapes = [(2, 1), (3, 2), (1, 1), (5, 3), (4, 4), (10, 4), (20, 10)] + ([(200, 56)] if tier == "thorough" else [])
     for B in Bs:
         Ls = sorted({1, max(1, B - 1), B, B + 1, 2 * B - 1, 2 * B, 2 * B + 1, 5 * B + 3, 3 * B})
         for L in Ls:
-            if L > 6_000_000:
+            if L > 350_000:      # the list-based stream model appends writer contents quadratically
                 continue
             for (d, p) in shapes:
-                if (d * p * L > 2_000_000) or (B <= 2 and d + p > 8 and L > 10) or (B == 1 and L > 40):
+                if (d * p * L > 1_000_000) or (B <= 2 and d + p > 8 and L > 10) or (B == 1 and L > 40):
                     continue
                 for conc in ["-", "c"]:
                     for frag in ([1] if tier == "quick" else [1, 1, 0]):
